@@ -118,10 +118,11 @@ def arg_pool(name, t):
     if name == "rsplit":
         return [(s,) for s in subs[:6]] + [(), (None, 1), (subs[0], 1)]
     if name == "split":
-        seps = sorted({",", "X", " ", "aa", "a", ",,", "b,", "zz", "\n", "ab", "\r\n", t, t[:1], t[-1:], t[1:3]} - {""})
+        # '.', '[|]', 'a|b' are ALSO used as regexes below (same text, other mode): literal mode must not care
+        seps = sorted({",", "X", " ", "aa", "a", ",,", "b,", "zz", "\n", "ab", "\r\n", ".", "[|]", "a|b", t, t[:1], t[-1:], t[1:3]} - {""})
         return [(s,) for s in seps] + [("",)]            # '' raises ValueError, as str.split('')
     if name == "split_regex":
-        return [(p,) for p in (",", ",+", r"\s+", "[,X]", "a|b", r"\d", r"l\d", "X{2}", r"\n|\r", "a(?=a)")]
+        return [(p,) for p in (",", ",+", r"\s+", "[,X]", "a|b", r"\d", r"l\d", "X{2}", r"\n|\r", "a(?=a)", ".", "[|]", r"\.")]
     if name == "splitlines":
         return [(), (False,), (True,)]
     if name in ("ljust", "rjust"):
@@ -135,9 +136,20 @@ def arg_pool(name, t):
     raise KeyError(name)
 
 
+SPLIT_SEQS = [   # (text, [(separator, regex?) ...]): ONE separator text used as a literal and as a regex, both orders
+    ("aq.bqqc.q", [["q.", False], ["q.", True], ["q.", False]]),
+    ("a[q|]b|cqd", [["[q|]", True], ["[q|]", False], ["[q|]", True]]),
+    ("x+y++z", [["+", False], ["\\+", True], ["\\+", False], ["y+", True], ["y+", False]]),
+    ("1*2**3", [["2*", True], ["2*", False], ["*", False]]),
+]
+
+
 def mk_cases(ctx):
     cases = []
-    texts = TEXTS if ctx.thorough else TEXTS
+    for t, steps in SPLIT_SEQS:
+        for f in layouts_for(t)[:5]:
+            cases.append(dict(m="split_seq", args=[], steps=steps, f=f, lay=-1))
+    texts = TEXTS + ["a.b|c", "x[|]y|z.", "a|b.a"]
     for t in texts:
         lays = layouts_for(t)
         for name in NATIVE + STR_METHODS + LIST_METHODS + BYTES_METHODS + OTHER_METHODS:
@@ -328,6 +340,13 @@ def check_uniform(r, c, what):
 
 
 def _oracle(c):
+    if c["m"] == "split_seq":
+        # history: the answer of split(sep) / split(sep, regex=True) must not depend on what was split before
+        for i, (sep, rx) in enumerate(c["steps"]):
+            w = _oracle(dict(m="split_regex" if rx else "split", args=[sep], f=c["f"], lay=c["lay"]))
+            if w:
+                return "step %d of %r: %s" % (i, c["steps"], w)
+        return None
     name, args = c["m"], c["args"]
     s = "".join(t for t, _ in c["f"])
     cs = wire.cells_of_chunks(c["f"])
@@ -360,6 +379,13 @@ def _oracle(c):
     if w:
         return w
     first = observed(r)
+    try:                                      # a caller scribbling on the dict shared_atts handed out must not matter
+        d = f.shared_atts
+        d["blink"] = True
+        d.pop("fg", None)
+        d.pop("bg", None)
+    except Exception:  # noqa: BLE001 - FmtStr() has none; an immutable mapping is fine too
+        pass
     try:
         again = observed(do_call(f, name, rargs))
     except Exception as e:  # noqa: BLE001
@@ -465,6 +491,12 @@ D27_MODEL = {}   # request line -> reply of the Lean model (its own escape parse
 
 
 def d27_shaped(c):
+    if c["m"] == "split_seq":
+        return False
+    return _d27_shaped(c)
+
+
+def _d27_shaped(c):
     """the re-wrapped str result (or an element of a list result / the fill-padded text) contains ESC '['"""
     if c["m"] in NATIVE and not (c["m"] in ("ljust", "rjust") and len(c["args"]) > 1):
         return False
@@ -562,14 +594,14 @@ def spec_impl(c):
 
 def check(ctx):
     cases = mk_cases(ctx)
-    d27 = [c for c in cases if d27_shaped(c)]
+    d27 = [c for c in cases if c["m"] != "split_seq" and d27_shaped(c)]
     try:
         import lib
         for c, rep in zip(d27, lib.run_driver([line(c) for c in d27])):
             D27_MODEL[line(c)] = rep
     except Exception as e:  # noqa: BLE001 - without the model nothing is attributed to D27
         ctx.note("D27 expectations unavailable: %r" % (e,))
-    ctx.tie("C15/methods", cases, line, impl, canon, canon)
+    ctx.tie("C15/methods", [c for c in cases if c["m"] != "split_seq"], line, impl, canon, canon)
     sc = spec_cases(ctx)
     ctx.tie("C15/str-specs-vs-CPython", sc, spec_line, spec_impl)
     ctx.exhaustive.append("Spec.strSplit / strSplitlines / pyLjust / pyRjust against CPython str on all strings over small "
@@ -596,4 +628,6 @@ def search(ctx):
 
 def replay(payload):
     c = payload["case"]
+    if c["m"] == "split_seq":
+        return dict(case=c, oracle=oracle(c))
     return dict(case=c, implementation=impl(c), model_request=line(c), oracle=oracle(c))
